@@ -210,12 +210,26 @@ def pow_sweep_exponents(lo, hi, quick):
     return es
 
 
+def generator(F):
+    """first element (in enumeration order) of full multiplicative order q - 1 (tiny fields)"""
+    n = F.q - 1
+    primes = [d for d in range(2, n + 1) if n % d == 0 and all(d % e for e in range(2, d))]
+    for e in F.elems():
+        if F.is_zero(e):
+            continue
+        if all(F.pow(e, n // d) != F.one for d in primes):
+            return e
+    raise AssertionError("no generator")
+
+
 def task_pow_sweep(a, env):
     fam, p, mc = a["fam"], a["p"], tuple(a["mc"])
     cfg = lib.Cfg(fam, p, mc)
     F = cfg.F
     r = R("pow:exponents-around-2^k:%s" % fam)
-    xm = tuple(a["x"])
+    # base: a generator of the multiplicative group (order q - 1 has an odd factor, so x^(2^k) != 1
+    # for every k and a dropped top bit changes the value)
+    xm = generator(F)
     x = cfg.lib(xm)
     for e in pow_sweep_exponents(a["lo"], a["hi"], env["tier"] == "quick") + [(1 << k) for k in a.get("extra", [])]:
         got = fl.run_op(cfg, "pow", x, e)
@@ -583,7 +597,7 @@ def run(ctx):
     # exponent sweep around powers of two, bit lengths 40 .. 4500 (thorough: .. 9000)
     hi_k = 4500 if ctx.quick else 9000
     for fam in ("ref", "opt"):
-        for (p, mc, x) in ((3, [1, 0], [1, 2]), (5, list(fl.quadratics(5)[1]), [2, 3])):
+        for (p, mc, x) in ((7, [1, 0], None), (5, list(fl.quadratics(5)[1]), None)):
             step = 280 if ctx.quick else 140
             for lo in range(40, hi_k, step):
                 # every k in a window of 24 at the start of each stride, and every k in [2930, 3030)
